@@ -18,7 +18,11 @@ from ..model import Log
 
 ID = 'C03'
 LEVEL = 'exploration'
-RULE = ('one run = 2-4 committer tasks doing read-modify-write on shared '
+RULE = ('12 % of the runs: sequential storage histories (the shared '
+        'driver) with stores from stale serials and declared dependencies '
+        'on objects that were meanwhile rewritten, undone, un-created or '
+        'deleted.  Otherwise: '
+        'one run = 2-4 committer tasks doing read-modify-write on shared '
         'cells (append a unique token to the cell\'s log, increment n; some '
         'declare readCurrent dependencies) through Connections, or calling '
         'tpc_begin/store/tpc_vote/tpc_finish directly with serials loaded '
